@@ -203,6 +203,13 @@ pub fn lipsum(
     let html: Option<bool> = kwargs.get("html")?;
     let html = html.unwrap_or(false);
     let n = n.or(n_kwargs).unwrap_or(5);
+    // the text is built in memory: refuse what asks for more than a million words
+    if n.saturating_mul(min.max(max)) > 1_000_000 {
+        return Err(Error::new(
+            ErrorKind::InvalidOperation,
+            "lipsum refuses to generate more than 1000000 words",
+        ));
+    }
     let mut rv = String::new();
 
     let rng = crate::rand::XorShiftRng::for_state(state);
